@@ -644,17 +644,24 @@ def refined(an, max_cycles=20000):
         kinds.append('active' if UNSEL not in cl else 'mixed' if SEL in cl else 'harmless')
         for x in cyc:
             node_cycles.setdefault(x, set()).add(n)
-    veto = []
+    veto, soft = [], []
     for n, cyc in enumerate(cycles):
-        v = False
+        v, others = False, set()
         if kinds[n] != 'active':
             for x in cyc:
                 if x[0] == 'c':
-                    v = v or any(x[1] in mem and node_cycles.get(('r', rid), set()) - {n} for rid, mem in members.items())
+                    for rid, mem in members.items():
+                        if x[1] in mem:
+                            others |= node_cycles.get(('r', rid), set()) - {n}
                 else:
-                    v = v or any(node_cycles.get(('c', m), set()) - {n} for m in members[x[1]])
+                    for m in members[x[1]]:
+                        others |= node_cycles.get(('c', m), set()) - {n}
+            v = bool(others)
         veto.append(v)
-    an['refined'] = {'cycles': cycles, 'kinds': kinds, 'veto': veto, 'node_cycles': node_cycles}
+        # every other cycle behind the veto is itself avoidable (no selected edge) and shares no cell with this one
+        mine = {x for x in cyc if x[0] == 'c'}
+        soft.append(v and all(kinds[o] == 'harmless' and not (mine & {x for x in cycles[o] if x[0] == 'c'}) for o in others))
+    an['refined'] = {'cycles': cycles, 'kinds': kinds, 'veto': veto, 'soft': soft, 'node_cycles': node_cycles}
     return an['refined']
 
 
@@ -671,3 +678,11 @@ def rect_veto(an, k=None):
             if rf['veto'][n]:
                 return True
     return False
+
+
+def rect_veto_soft(an, k):
+    """rect_veto(an, k) holds and every vetoing cycle found is of the 'soft' kind: the other cycles behind it are all
+    avoidable themselves and disjoint from it (once they are resolved nothing is left to veto)."""
+    rf = refined(an)
+    hit = [n for x in an['reach_all'][k] for n in rf['node_cycles'].get(('c', x), ()) if rf['veto'][n]]
+    return bool(hit) and all(rf['soft'][n] for n in hit)
